@@ -131,7 +131,7 @@ func (sr *StyleResolver) Resolve(styleName string) *ResolvedStyle {
 
 	// Detect heading from default-outline-level
 	if styleDef.DefaultOutlineLevel != "" {
-		if level, err := strconv.Atoi(styleDef.DefaultOutlineLevel); err == nil && level >= 1 && level <= 9 {
+		if level, err := strconv.Atoi(styleDef.DefaultOutlineLevel); err == nil && level >= 1 && level <= 10 {
 			resolved.IsHeading = true
 			resolved.HeadingLevel = level
 		}
